@@ -266,7 +266,12 @@ func FuncName(fn *ssa.Function) string {
 
 // Func resolves "pkg.(*T).M", "pkg.T.M" or "pkg.F" (short package path; "tabula"
 // for the root package) to its SSA function, or nil.
-func (p *Prog) Func(name string) *ssa.Function {
+func (p *Prog) Func(name string) (fn *ssa.Function) {
+	defer func() {
+		if recover() != nil {
+			fn = nil // LookupMethod panics when the method does not exist (any more)
+		}
+	}()
 	pkgName, rest := splitName(name)
 	sp, ok := p.SSAPkg[pkgName]
 	if !ok {
